@@ -5,6 +5,19 @@ HERE = os.path.dirname(os.path.dirname(os.path.abspath(__file__)))
 ALL = ["C%02d" % i for i in range(1, 21)]
 
 CHECKS = {
+ "C13": dict(
+  category="model_checking",
+  text="SyncProps.tla: the target definition as a sequence of slots [name, annotation, default, kw-only] (function, self/cls method "
+       "or class; 1..4 positional with every suffix of defaults, 0..2 keyword-only, annotated or not), SyncProp(mode) for every "
+       "target slot x input kind x mode (plain / wrap template / --input-eval); TLC checks OnlyTarget, DefaultsAligned, "
+       "InputUntouched and TargetUpdated over all 4890 cases. Binding: every case (seeded 1200 in quick, all in thorough) is "
+       "concretised as a real pair of modules, the real sync_properties runs, and the output module's AST is projected slot by "
+       "slot and compared with the specification's post-state; the sibling definition, the rest of the target (first parameter, "
+       "body, decorators, return annotation), every other statement and the input file must be unchanged.",
+  design_ref="DESIGN.md section 4, C13",
+  note="Trusted: the AST projection of the output module. 'Syntactically identical' is judged on the AST because the command "
+       "re-formats the output file with black.",
+  technique="TLA+ slot model checked by TLC; every case replayed through the real command and diffed against the spec post-state"),
  "C19": dict(
   category="model_checking",
   text="Gen.tla: the output file is absent or present; Gen(opts) over the full option matrix (9 parse kinds incl. infer x 8 emit kinds "
